@@ -476,3 +476,29 @@ Fixpoint first_diff (k : nat) (m o : list event) : list (nat * nat * nat) :=
   | _, _ => [(k, List.length m, List.length o)]
   end.
 Definition cmp_plot (c : plot_case) : list (nat * nat * nat) := first_diff 0 (plot_events (pk_in c)) (pk_obs c).
+
+(* ---- stage G: the translated output templates, rendered by the model of text/template over what
+   the template saw of the value, against the text Go wrote.  Mismatch code: (1, k, 0) with k the
+   position of the first differing character ---- *)
+From Coq Require Import String Ascii.
+From Inkfem Require Import Model.Template.
+Fixpoint first_diff_str (k : nat) (a b : string) : option nat :=
+  match a, b with
+  | EmptyString, EmptyString => None
+  | String x a', String y b' => if Ascii.eqb x y then first_diff_str (S k) a' b' else Some k
+  | _, _ => Some k
+  end.
+Definition cmp_render (t : list tnode) (data : ctxt) (text : string) : list (nat * nat * nat) :=
+  match first_diff_str 0 (render t data) text with
+  | None => []
+  | Some k => [(1, k, 0)%nat]
+  end.
+
+(* the documented layout itself (Proofs/TemplateProofs.v spec_solution / spec_preprocess / spec_definition,
+   proved equal to what the translated templates render) against the text Go wrote: code (2, k, 0) *)
+From Inkfem Require Import Proofs.TemplateProofs.
+Definition cmp_spec (spec text : string) : list (nat * nat * nat) :=
+  match first_diff_str 0 spec text with
+  | None => []
+  | Some k => [(2, k, 0)%nat]
+  end.
